@@ -35,7 +35,8 @@ fi
 go build ./... 2>&1 | grep -v "main is undeclared\|^#" | head -5
 go test -tags "badger filelog" -vet=off -count=1 -run "^($NAMES)\$" $PKGS > /tmp/sv-$ID$V-patched.txt 2>&1; RC_PATCHED=$?
 tail -8 /tmp/sv-$ID$V-patched.txt | cut -c1-300
-# pinned baseline (no engine tag), compare with stable_pass
+# pinned baseline (no engine tag), compare with stable_pass; the demo files are removed first (they are not part of the change)
+git clean -fdq
 go test -vet=off -count=1 -json -timeout 25m ./... 2>/dev/null > /tmp/sv-$ID$V-base.json
 BASE=$(python3 - <<PY
 import json
